@@ -16,7 +16,7 @@ No GPU, no nvcc.  What is bound is the TEXT of the current tree, executed on the
  (3) a rejected record is confirmed by re-running exactly its case; the known-findings classifier (Trace_GpuDev with
      Lit = TRUE) separates what the text of the tree explains when read literally (known_findings.json, exit 0 with
      KNOWN-FINDING lines) from anything else (VIOLATION)."""
-import os, json, re
+import os, json, re, time
 from concurrent.futures import ThreadPoolExecutor
 import vlib
 from vlib import Check, workdir, build_driver, validate_trace, sh
@@ -169,7 +169,9 @@ def run_arch(ck, wd, arch, exe, cases, pc, tag, results):
     """driver run + validation of one arch variant; appends (arch, rec, explained) for confirmed rejections to results."""
     cpath = os.path.join(wd, 'cases_%s_%d.txt' % (tag, arch)); tpath = os.path.join(wd, 'trace_%s_%d.ndjson' % (tag, arch))
     write_cases(cpath, cases)
+    t0 = time.time(); tm = ck.cov.setdefault('phase_seconds', {}).setdefault(str(arch), {})
     r = sh([exe, cpath, tpath], timeout=900)
+    tm['driver'] = round(time.time() - t0, 1); t0 = time.time()
     if r.returncode != 0:
         if 'self-test' in r.stderr:
             raise Infra('tools/ptx_prims.hpp contradicts its __int128 definitions: ' + r.stderr[-400:])
@@ -214,6 +216,7 @@ def run_arch(ck, wd, arch, exe, cases, pc, tag, results):
                 explained.append(j); n_acc += 1
         ck.cov.setdefault('known_classifier', {})[str(arch)] = dict(routed=len(part['known']), explained_and_rejected_by_spec=n_acc)
         ck.states += vk['states']; ck.transitions += vk['transitions']
+    tm['classifier_pass'] = round(time.time() - t0, 1); t0 = time.time()
     rejected = []
     with ThreadPoolExecutor(max_workers=2) as ex:
         futs = []
@@ -227,6 +230,7 @@ def run_arch(ck, wd, arch, exe, cases, pc, tag, results):
                 ck.note('infrastructure: ' + msg)
             rejected += [rec for _, rec in v['rejected']]
             ck.sample_trace(os.path.join(wd, 'tr_%s_%d_%s.ndjson' % (tag, arch, name)), n=2)
+    tm['specification_pass'] = round(time.time() - t0, 1); t0 = time.time()
     # ---- confirmation: exactly the case of a rejected record, alone in a fresh process
     seen = set()
     for rec in rejected:
@@ -261,6 +265,7 @@ def run_arch(ck, wd, arch, exe, cases, pc, tag, results):
                     results.append((arch, j, True, [cases[j['ci'] - 1]]))
                 else:
                     ck.note('known-finding witness not reproduced on re-run (arch %d): %s' % (arch, key_of(arch, j, True)))
+    tm['confirmations'] = round(time.time() - t0, 1)
     return explained
 
 
